@@ -329,6 +329,9 @@ def _classes(e):
 
 
 def replay(case: dict):
+    if case.get("driver") == "landing":
+        a = landing_shard(())
+        return [(v.clause, v.detail) for v in a.violations.values() if v.case == case]
     if case.get("driver") == "moving-window":
         return mw_history(case["capacity"], [tuple(h) for h in case["history"]])
     set_unit(case.get("unit_ms", 1000))
@@ -476,9 +479,56 @@ def mw_shard(args) -> Acc:
     return acc
 
 
+def landing_shard(_args) -> Acc:
+    """Where does a single off-grid update land?  For alignment points near and very far (year 1, year 9000) from the
+    data, periods of 1 s and 0.2 s, and timestamps a few microseconds around the midpoint between two slots: the
+    value must be readable at the nearest slot (exact integer arithmetic), and nowhere else."""
+    from datetime import datetime, timezone
+
+    acc = Acc()
+    aligns = [datetime(1970, 1, 1, tzinfo=timezone.utc), datetime(1, 1, 1, tzinfo=timezone.utc), datetime(2000, 1, 1, tzinfo=timezone.utc),
+              datetime(9000, 1, 1, tzinfo=timezone.utc)]
+    base = datetime(2024, 1, 1, 0, 0, 0, tzinfo=timezone.utc)
+    for align in aligns:
+        for period_us in (1_000_000, 200_000):
+            P = timedelta(microseconds=period_us)
+            for container in ("list", "numpy"):
+                for k in (0, 1, 2, 3):
+                    for eps in (-3, -1, 1, 3, -period_us // 2 + 1, period_us // 2 - 1):
+                        rb = OrderedRingBuffer([SENT] * 8 if container == "list" else np.full(8, SENT, dtype=float), P, align)
+                        # slot grid relative to the alignment point
+                        off = (base - align) % P
+                        slot0 = base - off  # a grid point at or before `base`
+                        t = slot0 + k * P + P / 2 + timedelta(microseconds=eps)
+                        exp_slot = slot0 + (k + (1 if eps > 0 else 0)) * P
+                        rb.update(Sample(slot0 - P, Quantity(1.0)))
+                        rb.update(Sample(t, Quantity(7.0)))
+                        acc.evaluations += 1
+                        acc.traces += 1
+                        acc.transitions += 2
+                        acc.nontrivial += 1
+                        acc.clauses["off_grid_update_lands_in_nearest_slot"] += 1
+                        try:
+                            got = tolist(rb.window(exp_slot, exp_slot + P, fill_value=FILL))
+                            newest = rb.newest_timestamp
+                        except Exception as e:  # noqa: BLE001
+                            got, newest = repr(e), None
+                        if got != [7.0] or newest != exp_slot:
+                            acc.violation(Violation("off_grid_update_lands_in_nearest_slot",
+                                                    {"driver": "landing", "align": align.isoformat(), "period_us": period_us, "container": container,
+                                                     "k": k, "eps_us": eps},
+                                                    {"expected_slot": exp_slot.isoformat(), "window_at_expected_slot": got,
+                                                     "newest_timestamp": None if newest is None else newest.isoformat()}))
+    acc.states = acc.evaluations
+    acc.outcome("landing")
+    return acc
+
+
 def _dispatch(args):
     if args[0] == "mw":
         return mw_shard(args[1:])
+    if args[0] == "landing":
+        return landing_shard(args[1:])
     return bfs(args)
 
 
@@ -497,6 +547,7 @@ def run(tier: str, seed: int, workers: int):
         # sampling periods that are not exactly representable as floats (0.1 s, 0.3 s)
         for period, align, unit_ms in ([(2, 0, 50), (3, 1, 100)] if tier == "quick" else [(2, 0, 50), (2, 1, 50), (3, 1, 100), (3, 0, 100)]):
             shards.append((tier, cap, period, align, "list" if cap % 2 else "numpy", depth - 1, unit_ms))
+    shards.append(("landing",))
     if seed:
         import random
 
@@ -510,7 +561,8 @@ def run(tier: str, seed: int, workers: int):
         "{None, -cap-1..cap+1}^2 and every datetime pair on the half-slot grid from two periods before the window to two "
         "periods after; non-trivial state = history of >= 2 updates with an off-grid timestamp; plus the real MovingWindow fed through its "
         "channel on the virtual loop: every in-window update history of depth 4 (quick) / 5, capacities 3-4 (2-5), checking at(index), "
-        "at(timestamp) and [:]",
+        "at(timestamp) and [:]; plus a landing pass: one off-grid update a few microseconds around the midpoint between two slots, for "
+        "alignment points in the years 1, 1970, 2000 and 9000, periods 1 s and 0.2 s, both containers",
         "assumptions": [
             "payload values only matter through validity, so valid values are renamed in the state key",
             "off-grid query endpoints: either neighbouring slot boundary is accepted; leading slots before the oldest valid "
